@@ -14,6 +14,18 @@ Parametricity Recursive list.
 Parametricity Recursive prod.
 Parametricity Recursive option.
 Parametricity Recursive Z.
+(* Z/positive functions used by integer-valued model functions (winding numbers):
+   translated once here, with qualified names (Pos.eqb / Z.eqb etc. would clash) *)
+Parametricity Recursive Z.eqb qualified.
+Parametricity Recursive Z.add qualified.
+Parametricity Recursive Z.sub qualified.
+Parametricity Recursive Z.opp qualified.
+Parametricity Recursive Z.div qualified.
+Parametricity Recursive Z.of_nat qualified.
+Parametricity Recursive xorb.
+Parametricity Recursive negb.
+Parametricity Recursive andb.
+Parametricity Recursive orb.
 
 Definition QR (q : Q) (r : R) : Type := Q2R q = r.
 
